@@ -1,6 +1,6 @@
 # Quantum Evolving Ansatz Variational Solver (QUEASARS)
 # Copyright 2024 DLR - Deutsches Zentrum für Luft- und Raumfahrt e.V.
-from typing import Any, Iterable, Optional, TypeVar, Union
+from typing import Any, Iterable, Optional
 
 from qiskit.primitives import (
     SamplerPubLike,
@@ -12,11 +12,10 @@ from qiskit.primitives import (
 )
 from qiskit.primitives.base import BaseSamplerV2, BaseEstimatorV2
 from qiskit.primitives.containers.estimator_pub import EstimatorPub
+from qiskit.primitives.containers.sampler_pub import SamplerPub
 
 from qiskit.transpiler import PassManager
 
-
-T = TypeVar("T")
 
 
 class TranspilingSamplerV2(BaseSamplerV2):
@@ -38,13 +37,17 @@ class TranspilingSamplerV2(BaseSamplerV2):
     def run(
         self, pubs: Iterable[SamplerPubLike], *, shots: Optional[int] = None
     ) -> BasePrimitiveJob[PrimitiveResult[SamplerPubResult], Any]:
-        def _ensure_tuple(value: Union[T, tuple[T]]) -> tuple[T]:
-            if isinstance(value, tuple):
-                return value
-            return (value,)
+        def apply_pass_manager(pub: SamplerPubLike) -> SamplerPubLike:
+            # A pub may be given as a circuit, as a tuple or as a SamplerPub, as for every other sampler.
+            pub = SamplerPub.coerce(pub)
+            return SamplerPub(
+                circuit=self._pass_manager.run(pub.circuit),
+                parameter_values=pub.parameter_values,
+                shots=pub.shots,
+                validate=False,
+            )
 
-        pubs = (_ensure_tuple(pub) for pub in pubs)
-        pubs = ((self._pass_manager.run(circuits=pub[0]), *pub[1:]) for pub in pubs)
+        pubs = (apply_pass_manager(pub) for pub in pubs)
         return self._sampler.run(pubs, shots=shots)
 
 
